@@ -7,6 +7,7 @@
 package wsread
 
 import (
+	"bytes"
 	"encoding/json"
 	"errors"
 	"fmt"
@@ -57,15 +58,15 @@ type scenario struct {
 }
 
 type driver struct {
-	ioc  *sonic.IO
-	g    *gen
-	w    *tr.Writer
-	seed int64
-	mode string
-	sum  tr.Summary
-	mbuf []byte
-	i    int
-	sid  int
+	ioc   *sonic.IO
+	g     *gen
+	w     *tr.Writer
+	seed  int64
+	mode  string
+	sum   tr.Summary
+	mbuf  []byte
+	i     int
+	sid   int
 	byErr map[string]int
 }
 
@@ -182,6 +183,7 @@ func (d *driver) parse(idx int, steps []Ev) (*scenario, error) {
 	var cellEnds []int // byte offset of every cell end
 	var frameEnds = map[int]bool{}
 	for _, f := range sc.frames {
+		f.embed = idx%2 == 1
 		f.build(d.g, variant)
 		base := len(sc.data)
 		for _, c := range f.cellSizes() {
@@ -223,6 +225,18 @@ func (d *driver) parse(idx int, steps []Ev) (*scenario, error) {
 		}
 	}
 	return sc, nil
+}
+
+// lostAt: an offset inside the payload of the first frame that has one of at least two bytes (0: none).
+func (sc *scenario) lostAt() int {
+	off := 0
+	for _, f := range sc.frames {
+		if f.Len >= 2 && len(f.raw) == f.hlen+f.Len {
+			return off + f.hlen + 1
+		}
+		off += len(f.raw)
+	}
+	return 0
 }
 
 type run struct {
@@ -328,7 +342,24 @@ func (d *driver) one(sc *scenario, r run, ri int) (obs []Ev) {
 	} else {
 		s.SetMaxMessageSize(sc.max)
 	}
-	if err := s.VerifAttach(t); err != nil {
+	if cut := sc.lostAt(); cut > 0 && ri%3 == 2 {
+		// the stream had a connection before this one, and lost it in the middle of a frame (header complete,
+		// payload not); the application connects again: nothing of the old connection may reach into the new one
+		func() {
+			defer func() { _ = recover() }()
+			if err := s.VerifAttach(&transport{data: sc.data[:cut], ends: []int{cut}, flags: []byte{0}}); err != nil {
+				panic(err)
+			}
+			for k := 0; k < 64; k++ {
+				if _, err := s.NextFrame(); err != nil {
+					break
+				}
+			}
+		}()
+		if err := s.VerifReattach(t); err != nil {
+			panic(err)
+		}
+	} else if err := s.VerifAttach(t); err != nil {
 		panic(err)
 	}
 	s.SetMaxMessageSize(sc.max)
@@ -492,6 +523,60 @@ func (d *driver) one(sc *scenario, r run, ri int) (obs []Ev) {
 				post.Wr = 1
 			}
 			rec(post)
+			// the caller keeps reading (as it has to during a closing handshake): nothing of what the
+			// rejected frame carried may come out as data
+			var inner []byte
+			for _, f := range sc.frames {
+				if f.inner != nil {
+					inner = f.inner
+				}
+			}
+			for k := 0; inner != nil && k < 6 && !r.chain; k++ {
+				var got []byte
+				var gerr error
+				done := true
+				switch r.api {
+				case "NF":
+					var f websocket.Frame
+					if f, gerr = s.NextFrame(); gerr == nil && !f.Opcode().IsControl() {
+						got = f.Payload()
+					}
+				case "NM":
+					var n int
+					if _, n, gerr = s.NextMessage(d.mbuf); gerr == nil {
+						got = d.mbuf[:n]
+					}
+				case "ANF":
+					done = false
+					s.AsyncNextFrame(func(err error, f websocket.Frame) {
+						if done = true; err == nil && !f.Opcode().IsControl() {
+							got = append([]byte{}, f.Payload()...)
+						}
+						gerr = err
+					})
+					if !pump(&done) {
+						gerr = io.EOF
+					}
+				case "ANM":
+					done = false
+					s.AsyncNextMessage(d.mbuf, func(err error, n int, _ websocket.MessageType) {
+						if done = true; err == nil {
+							got = d.mbuf[:n]
+						}
+						gerr = err
+					})
+					if !pump(&done) {
+						gerr = io.EOF
+					}
+				}
+				if got != nil && bytes.Contains(got, inner) {
+					rec(Ev{Ev: "After", Len: len(got)})
+					break
+				}
+				if gerr != nil && !errors.Is(gerr, sonicerrors.ErrWouldBlock) {
+					break
+				}
+			}
 		}
 	}()
 	d.byErr[lastErr]++
